@@ -39,6 +39,7 @@ GRAV = np.array([0, 0, -9.81])
 
 
 KF_SEPARATING = "Newton-impact-law/separating-contact-in-active-set"
+KF_RATTLE_OLD_RATE = "Rattle.xi_N/pre-impact-rate-taken-at-the-old-configuration"
 
 
 def cases(tier, seed):
@@ -309,8 +310,20 @@ def run_case(spec, ctx):
                 if E_prev is None:
                     E_prev = 0.5 * un @ dense(S.M(tn, qn)) @ un
                 if E > E_prev * (1 + 1e-9) + 1e-12:
-                    ctx.violation(f"{solver}.solve", "kinetic energy increases in a force-free frictionless scene with restitution <= 1", {**ex, "E_before": float(E_prev), "E_after": float(E)},
-                                  key=KF_SEPARATING if info.get("distinct_e_N") else None)
+                    key_ = KF_SEPARATING if info.get("distinct_e_N") else None
+                    wit_ = {}
+                    if key_ is None and solver == "Rattle":
+                        # RATTLE restitutes the gap rate of the OLD configuration, g_N_dot(t_n, q_n, u_n), against the new one,
+                        # g_N_dot(t_n+1, q_n+1, u_n+1); when the contact normal turns within the step (oblique sphere-sphere
+                        # impact) the two refer to different directions. The gain this can explain is bounded by
+                        # 1/2 sum_i P_N,i e_N,i |rate(q_n, u_n) - rate(q_n+1, u_n)|_i over the contacts with a percussion
+                        g_old, g_new = S.g_N_dot(tn, qn, un), S.g_N_dot(tn1, qn1, un)
+                        bound = 0.5 * float(np.sum(np.maximum(PN, 0.0) * np.asarray(S.e_N) * np.abs(g_old - g_new)))
+                        wit_ = {"P_N": PN, "pre_impact_rate_at_old_configuration": g_old, "pre_impact_rate_at_new_configuration": g_new, "explained_gain_bound": bound}
+                        if E - E_prev <= bound * (1 + 1e-6) + 1e-12 * (1 + E_prev):
+                            key_ = KF_RATTLE_OLD_RATE
+                    ctx.violation(f"{solver}.solve", "kinetic energy increases in a force-free frictionless scene with restitution <= 1", {**ex, **wit_, "E_before": float(E_prev), "E_after": float(E)},
+                                  key=key_)
                 E_prev = E
             # advance the path-dependent state of the evaluation copy exactly as the solver did after this step
             S.step_callback(tn1, qn1.copy(), un1.copy())
